@@ -82,11 +82,8 @@ def main():
         if rp and os.path.exists(rp[0]):
             res["first_replay"] = json.load(open(rp[0]))
     sh(["git", "-C", WT, "checkout", "--", "."])
-    # point the harness back at /repo
-    link = os.path.join(ROOT, "harness", "bio-src")
-    if os.path.islink(link):
-        os.remove(link)
-    os.symlink("/repo", link)
+    # point the harness back at /repo (rebuilds bio from /repo)
+    sh([os.path.join(ROOT, "check"), prop, "--replay", "/dev/null"], cwd=ROOT, env=dict(os.environ, VERIF_REPO="/repo"))
     json.dump(res, open(os.path.join(d, "result.json"), "w"), indent=1)
     print(json.dumps(res, indent=1))
 
